@@ -557,11 +557,15 @@ class MarkdownNormalizer(Renderer):
         return self._render_code(element)
 
     def render_html_block(self, element: block.HTMLBlock) -> str:
+        # Reset the skip flag since we're not rendering a blank line
+        self._skip_next_blank_line = False
         result = f"{self._prefix}{element.body}"
         self._prefix = self._second_prefix
         return result
 
     def render_thematic_break(self, _element: block.ThematicBreak) -> str:
+        # Reset the skip flag since we're not rendering a blank line
+        self._skip_next_blank_line = False
         result = f"{self._prefix}* * *\n"
         self._prefix = self._second_prefix
         return result
@@ -615,6 +619,8 @@ class MarkdownNormalizer(Renderer):
         link_text = element.dest
         if element.title:
             link_text += f" {_normalize_title_quotes(element.title, raw=True)}"
+        # Reset the skip flag since we're not rendering a blank line
+        self._skip_next_blank_line = False
         result = f"{self._prefix}[{element.label}]: {link_text}\n"
         self._prefix = self._second_prefix
         self._suppress_item_break = True
@@ -775,6 +781,8 @@ class MarkdownNormalizer(Renderer):
         Render a GFM table. Does not do whitespace padding and normalizes
         the delimiters to use three dashes consistently.
         """
+        # Reset the skip flag since we're not rendering a blank line
+        self._skip_next_blank_line = False
         lines: list[str] = []
         head, *body = element.children
         # Table lines carry the container prefixes (e.g. "> " inside a block quote) like any block.
